@@ -127,7 +127,8 @@ Definition step (s : st) (o : op) : st * res :=
   | Attach g c sk =>
       let x := getg s g in
       match att x with
-      | Some _ => (s, RPanic)                              (* drop(write); panic!("Already installed ...") *)
+      | Some _ => (emit s [Joined sk], RPanic)             (* drop(write); panic!("Already installed ..."): the state is
+                                                              untouched; unwinding drops the rejected (sink, handle) *)
       | None =>
           let s1 := setg s g (mk_gst (Some sk) (tls x) (rts x)) in
           (with_handles s1 (handles s1 ++ [mk_ent g 0 sk true true]), ROk (of_len (handles s)))
